@@ -809,6 +809,9 @@ func init() {
 						cs = append(cs, fw.Case{ID: fmt.Sprintf("gadget/commit/b=%d", b), Kind: "gadget", P: map[string]any{"face": "commit", "b": b, "pad": true}})
 					}
 				}
+				for _, n := range []string{"A_testdata", "B_random_CGZ"} {
+					cs = append(cs, fw.Case{ID: "twochips/" + n, Kind: "twochips", P: map[string]any{"inst": n}})
+				}
 				nw := 12
 				if !ctx.Quick {
 					nw = 200
@@ -860,6 +863,14 @@ func init() {
 						}
 						want := v < lim
 						acc := res.Verdict == engine.Accept
+						if !acc && !want && !pad {
+							// existential over hint outputs: a forged bit decomposition (non-boolean first digit)
+							r2 := harnRunOpt(engine.Options{Face: face, Policy: bitsPolicy{bu(v)}}, func(api frontend.API) error { def(api); return nil })
+							o.Events += events(r2)
+							if r2.Verdict == engine.Accept {
+								acc = true
+							}
+						}
 						cfg := c.Str("face")
 						if c.Str("env") != "" {
 							cfg = "env_bitdecomp"
@@ -880,6 +891,36 @@ func init() {
 					o.Add("responses_rejected", rejN)
 					o.Trivial = accN == 0 || rejN == 0
 					o.Sample = map[string]any{"b": b, "accepted": accN, "rejected": rejN}
+				case "twochips":
+					// two verifier chips in one circuit, the second configured with a difficulty the proof
+					// does not meet: the second verification must use ITS configuration and reject
+					in := getInst(c.Str("inst")).Restrict(1)
+					p, _ := toRefProof(&in.PWI)
+					rch, _ := ref.GetChallenges(p, toRefVD(&in.VD), refCommon(in))
+					lz := 0
+					for ref.PowOK(rch.PowResponse, lz+1) {
+						lz++
+					}
+					strict := in.Clone()
+					strict.Common.Config.FriConfig.ProofOfWorkBits = uint64(lz + 1)
+					strict.Common.FriParams.Config.ProofOfWorkBits = uint64(lz + 1)
+					for _, order := range []string{"lenient_first", "strict_only"} {
+						res := harnRunOpt(engine.Options{Face: engine.Native}, func(api frontend.API) error {
+							if order == "lenient_first" {
+								a := in.Clone()
+								verifier.NewVerifierChip(api, a.Common).Verify(a.PWI.Proof, a.PWI.PublicInputs, a.VD)
+							}
+							b := strict.Clone()
+							verifier.NewVerifierChip(api, b.Common).Verify(b.PWI.Proof, b.PWI.PublicInputs, b.VD)
+							return nil
+						})
+						o.Events += events(res)
+						if res.Verdict == engine.Accept {
+							return fw.Violate("pow_difficulty_of_another_chip_used", fmt.Sprintf("%s (%s): the proof's response has %d leading zeros, the second chip is configured for %d and still accepted", c.ID, order, lz, lz+1))
+						}
+					}
+					o.Inc("second_chip_uses_its_own_difficulty")
+					o.Sample = map[string]any{"response_leading_zeros": lz, "second_chip_pow_bits": lz + 1}
 				case "witness":
 					in := getInst(c.Str("inst")).Clone()
 					w := randGL(r)
